@@ -841,6 +841,15 @@ def value_getattr(I, a, name):
                 return SArr(r.shape, kind=r.kind, buf=r.buf, imap=r.imap, inv=r.inv, attrs={}, tag='ndarray-view')
             return r
         return meth(view)
+    if name == 'tofile':
+        def tofile(I, r, args, kw):
+            # text/binary output of the array to an open file: no line break is written for text output with a separator
+            fobj = args[0] if args else kw.get('fid')
+            I.ctx.ghost[('tofile', id(fobj))] = sym.add(I.ctx.ghost.get(('tofile', id(fobj)), 0), 1)
+            return None
+        return meth(tofile)
+    if name in ('ravel', 'flatten') and a.ndim == 1:
+        return meth(lambda I, r, args, kw: r.frozen() if name == 'flatten' else r)
     if name == 'swapaxes':
         def swapaxes(I, r, args, kw):
             i, j = args[0] % r.ndim, args[1] % r.ndim
@@ -1366,6 +1375,23 @@ _masked_cmp('masked_equal', sym.eq, 'x == value')
 _masked_cmp('masked_not_equal', sym.ne, 'x != value')
 
 
+@_np('ma.filled')
+def _ma_filled(I, args, kw):
+    a = _as_arr(I, args[0]).frozen()
+    fv = args[1] if len(args) > 1 else kw.get('fill_value')
+    if a.mask is None:
+        return SArr(a.shape, lambda q: a.get(q), a.kind, tag='filled')
+    if fv is None:
+        fv = a.attrs.get('fill_value')
+        if fv is None:
+            raise Unsupported('numpy.ma.filled with the default fill value')
+    m = a.mask
+    return SArr(a.shape, lambda q: sym.ite(m.get(q), fv, a.get(q)), a.kind, tag='filled')
+
+
+models._REG['numpy.ma.core.filled'] = models._REG['numpy.ma.filled']
+
+
 @_np('ma.getmaskarray')
 def _getmaskarray(I, args, kw):
     a = _as_arr(I, args[0])
@@ -1545,7 +1571,8 @@ def _symbolic_for_arr(I, st, frame, it, spec):
         return None
     hidden = '__idx_%d' % st.lineno
     frame.locals[hidden] = 0
-    I.assign(st.target, getter(z3.Int('loop_proto_%d' % next(_ids))), frame)
+    # (prototype binding of the loop variable: an arbitrary row, no bounds check -- the real binding happens in pre_body)
+    I.assign(st.target, _pure(I, lambda: getter(z3.Int('loop_proto_%d' % next(_ids)))), frame)
 
     def cond():
         return sym.lt(frame.locals[hidden], n)
